@@ -1,4 +1,5 @@
 """C01 - traversal is exact: every entry in the depth window, once, nothing else; bfs/dfs order."""
+import collections
 import itertools
 import os
 import random
@@ -310,6 +311,73 @@ def run_job(job):
                 res.cover("entry_kinds", "non-utf8-name")
                 if want:
                     res.nt("nonutf8|%s|%s|%s|%d" % (a, b, mode, len(want)))
+        elif job["kind"] == "rxroots":
+            # `regexp` root option (synonym rx): every path component that contains * [ or ? is a regular expression and stands
+            # for the directories (not links) whose whole name matches it; each of them is searched like a root of its own
+            tops = ["r1", "r2", "r10", "rx", "other", "R3", "r1x", ".r5", "s-1"]
+            snaps = {}
+            for name in tops:
+                os.mkdir(os.path.join(w, name))
+                nodes = tree.gen_tree(rng, max_entries=10, max_depth=3, kinds=("file", "dir", "symlink"))
+                nodes += [{"path": "sub1", "kind": "dir"}, {"path": "sub1/in1", "kind": "file", "size": 1}] if rng.random() < 0.6 else []
+                nodes += [{"path": "sub22", "kind": "dir"}, {"path": "sub22/in2", "kind": "file", "size": 1}] if rng.random() < 0.5 else []
+                tree.materialise(os.path.join(w, name), nodes)
+                snaps[name] = tree.snapshot(os.path.join(w, name))
+            os.symlink("r1", os.path.join(w, "r7"))          # a link to a directory is not a directory
+            open(os.path.join(w, "r8"), "w").close()         # nor is a file
+            import re as _re
+            for qi in range(job["queries"]):
+                pat = rng.choice(["r[0-9]+", "r[0-9]", ".*", "r.*", "[a-z]+[0-9]", "r1?", "r1.?", "[rR][0-9]", "r[0-9]+/sub.*", "r[12]/sub[0-9]", ".*/sub[0-9]",
+                                  "r[0-9]*", "[^r].*", "r?x", "other/s.b[0-9]+"])
+                a = rng.choice([None, None, 1, 2, 3])
+                bmax = rng.choice([None, None, 1, 2, 3])
+                mode = rng.choice(["", "bfs", "dfs"])
+                kw = rng.choice(["regexp", "rx", "RX", "Regexp"])
+                absolute = rng.random() < 0.3
+                query = "path from '%s' %s%s%s%s into list" % ((w + "/" if absolute else "") + pat, kw, "" if a is None else " mindepth %d" % a,
+                                                              "" if bmax is None else " maxdepth %d" % bmax, " " + mode if mode else "")
+                r = runner.run([query], cwd=w, home=home)
+                res.ev()
+                ctx = {"query": query, "top_level": sorted(os.listdir(w)), "result": r.brief()}
+                if r.verdict != "ok" or r.rc != 0 or r.err:
+                    if r.verdict in ("ok", "busy"):
+                        res.viol("regexp roots: status %s / stderr %r on a readable tree" % (r.rc, r.err[:200]), ctx)
+                    continue
+                parts = pat.split("/")
+                starts = [""]
+                for part in parts:
+                    nxt = []
+                    for st in starts:
+                        base = os.path.join(w, st)
+                        if any(c in part for c in "*[?"):
+                            for n in sorted(os.listdir(base)):
+                                full = os.path.join(base, n)
+                                if os.path.isdir(full) and not os.path.islink(full) and _re.fullmatch(part, n):
+                                    nxt.append(os.path.join(st, n))
+                        elif os.path.isdir(os.path.join(base, part)):
+                            nxt.append(os.path.join(st, part))
+                    starts = nxt
+                want = collections.Counter()
+                for st in starts:
+                    top = st.split("/")[0]
+                    inner = st[len(top) + 1:] if "/" in st else ""
+                    for e in snaps[top]:
+                        if inner and not e.rel.startswith(inner + "/"):
+                            continue
+                        lvl = e.level - (inner.count("/") + 1 if inner else 0)
+                        if in_window(lvl, a or 0, bmax or 0):
+                            want[os.path.join(w, top, e.rel)] += 1
+                got = collections.Counter(os.path.normpath(os.path.join(w, x)) for x in r.rows())
+                if got != want:
+                    ctx["roots_expected"] = starts
+                    ctx["missing"] = sorted((want - got).keys())[:5]
+                    ctx["extra"] = sorted((got - want).keys())[:5]
+                    res.viol("regexp roots `%s`: rows differ from the in-window entries of the %d matching directories (%d missing, %d extra)" % (
+                        pat, len(starts), sum((want - got).values()), sum((got - want).values())), ctx)
+                    continue
+                res.cover("regexp_root_patterns", pat)
+                if want:
+                    res.nt("rxroots|%s|%s|%s|%s|%d" % (pat, a, bmax, mode, sum(want.values())))
         elif job["kind"] == "large":
             name = "big"
             os.mkdir(os.path.join(w, name))
@@ -370,6 +438,8 @@ def main(chk):
                      "dirs": 40 if i % 2 == 0 else 400})
     for i in range(32 if quick else 160):
         jobs.append({"id": "nonutf8-%d" % i, "kind": "nonutf8", "seed": job_seed(chk.seed, "C01", "N%d" % i)})
+    for i in range(24 if quick else 200):
+        jobs.append({"id": "rxroots-%d" % i, "kind": "rxroots", "seed": job_seed(chk.seed, "C01", "R%d" % i), "queries": 12})
     shapes = enum_shapes(4 if quick else 6)
     per = 4
     for i in range(0, len(shapes), per):
@@ -379,12 +449,12 @@ def main(chk):
     return chk.finish(
         rule="random trees (1-3 disjoint roots, every creatable entry kind) x root spellings x windows "
              "0..depth+2 x {default,bfs,dfs}; plus every directory-tree shape with <= %d directories x windows "
-             "0..4 x {bfs,dfs}; 30 %% of the random queries also search a link-free root carrying `symlinks` (the option must stay with that root). Non-trivial = query returned >= 1 row; distinct by (tree shape hash, window/mode/spelling)."
+             "0..4 x {bfs,dfs}; 30 %% of the random queries also search a link-free root carrying `symlinks` (the option must stay with that root); `regexp` / `rx` roots: 15 patterns over one or two path components, relative and absolute, expanded by the harness with re.fullmatch over real directories. Non-trivial = query returned >= 1 row; distinct by (tree shape hash, window/mode/spelling)."
              % (4 if quick else 6),
         assumptions=["deciding binary built without LTO (otherwise the release profile)",
                      "ground truth = os.lstat walk of the tree after it was built",
                      "rows are mapped to entries by normalising the printed path against the cwd; path spelling is not judged"],
-        require={"modes": 3, "spellings": 5, "entry_kinds": 8, "per_root_symlinks_option": 50},
+        require={"modes": 3, "spellings": 5, "entry_kinds": 8, "per_root_symlinks_option": 50, "regexp_root_patterns": 10},
         exhaustive={"dir_tree_shapes": len(shapes), "windows": "0..4 x 0..4", "modes": ["bfs", "dfs"],
                     "completed_shapes": chk.counts.get("exhaustive_shapes_done", 0)},
     )
